@@ -59,6 +59,12 @@ class AstToSqlVisitor(visitor.NodeVisitor):
         super().__init__()
         self.table_alias = table_alias
 
+    def generic_visit(self, node: ast._Node):
+        ":meta private:"
+        # A node without an explicit visitor method cannot be translated.
+        # Refuse it, instead of silently dropping it from the result:
+        raise exceptions.UnsupportedNodeException(type(node).__name__)
+
     def visit_Identifier(self, node: ast.Identifier) -> str:
         ":meta private:"
         # Double quotes for column names acc SQL Standard
@@ -305,7 +311,7 @@ class AstToSqlVisitor(visitor.NodeVisitor):
         Transform a node into a pattern usable in `LIKE` clauses.
         :meta private:
         """
-        if isinstance(arg, (ast.Identifier, ast.Call)):
+        if not isinstance(arg, ast._Literal):
             res = self.visit(arg)
             if prefix:
                 res = f"'{prefix}' || " + res
